@@ -311,7 +311,10 @@ fn read_data_from_stream<F: Read + Seek>(
 ) -> io::Result<usize> {
     let (start_sector, stream_len) = {
         let dir_entry = minialloc.dir_entry(stream_id);
-        debug_assert_eq!(dir_entry.obj_type, ObjType::Stream);
+        // The stream may have been removed while this handle was open.
+        if dir_entry.obj_type != ObjType::Stream {
+            not_found!("Stream {} no longer exists", stream_id);
+        }
         (dir_entry.start_sector, dir_entry.stream_len)
     };
     let num_bytes = if buf_offset_from_start >= stream_len {
@@ -347,7 +350,10 @@ fn write_data_to_stream<F: Read + Write + Seek>(
 ) -> io::Result<()> {
     let (old_start_sector, old_stream_len) = {
         let dir_entry = minialloc.dir_entry(stream_id);
-        debug_assert_eq!(dir_entry.obj_type, ObjType::Stream);
+        // The stream may have been removed while this handle was open.
+        if dir_entry.obj_type != ObjType::Stream {
+            not_found!("Stream {} no longer exists", stream_id);
+        }
         (dir_entry.start_sector, dir_entry.stream_len)
     };
     debug_assert!(buf_offset_from_start <= old_stream_len);
@@ -450,7 +456,10 @@ fn resize_stream<F: Read + Write + Seek>(
 ) -> io::Result<()> {
     let (old_start_sector, old_stream_len) = {
         let dir_entry = minialloc.dir_entry(stream_id);
-        debug_assert_eq!(dir_entry.obj_type, ObjType::Stream);
+        // The stream may have been removed while this handle was open.
+        if dir_entry.obj_type != ObjType::Stream {
+            not_found!("Stream {} no longer exists", stream_id);
+        }
         (dir_entry.start_sector, dir_entry.stream_len)
     };
     let new_start_sector = if old_start_sector == consts::END_OF_CHAIN {
